@@ -25,7 +25,7 @@ package dtls
 // S13(c): the DTLS 1.3 state object of the connection.
 //@ define S13(c) c.state.(*dtlsstate.State13)
 //@ define IS13(c) typeIs(c.state, "*github.com/pion/dtls/v3/internal/state.State13")
-//@ define TG0() c.state.(*dtlsstate.State13).TrafficKeys.Read(0)
+//@ define TG0() candidates[0]
 
 // commitLocalKeyUpdate: the acknowledged write generation becomes current only if it is the
 // successor of the current one (validateNextWriteGeneration, contract in verif_contracts.go); then the
@@ -53,4 +53,28 @@ package dtls
 //@ ensures committed-epoch-set-once: result == nil ==> ncalls("Common.SetLocalEpoch") == 1 && calledBefore("TrafficKeyState.Install", "Common.SetLocalEpoch")
 //@ ensures remote-epoch-untouched: IS13(c) ==> S13(c).Common.RemoteEpoch() == old(S13(c).Common.RemoteEpoch())
 //@ ensures unlocked: !held("Conn.writeLock") && !held("Conn.lock")
+//@ end
+
+// openCiphertextRecord: a record is only opened under a read generation whose epoch does not exceed
+// the authorised remote epoch (the one advanced by handleKeyUpdate) and whose low two epoch bits are
+// the ones on the wire; the epoch returned is that generation's.
+
+//@ func Conn.openCiphertextWithGeneration
+//@ noinline
+//@ end
+
+//@ func Conn.openCiphertextRecord
+//@ watch Conn.readTrafficCandidates Conn.openCiphertextWithGeneration
+//@ requires args: c != nil
+//@ requires state13: IS13(c) ==> nonNilPayload(c.state) && S13(c).Common != nil
+//@ ensures not-dtls13: !IS13(c) ==> result3 != nil
+//@ ensures opened-under-authorised-epoch: result3 == nil ==> called("Conn.readTrafficCandidates") && result2 <= retAs("Conn.readTrafficCandidates", 1, result2)
+//@ ensures authorised-epoch-is-remote-epoch: result3 == nil ==> retAs("Conn.readTrafficCandidates", 1, result2) == old(S13(c).Common.RemoteEpoch())
+//@ ensures opened-with-that-generation: result3 == nil ==> called("Conn.openCiphertextWithGeneration") && isNil(retErr("Conn.openCiphertextWithGeneration", 2))
+//@    && argAs("Conn.openCiphertextWithGeneration", 2, TG0()) != nil && argAs("Conn.openCiphertextWithGeneration", 2, TG0()).Epoch == result2
+//@    && result1 == retU64("Conn.openCiphertextWithGeneration", 1)
+//@ ensures low-bits-match: result3 == nil ==> uint8(result2 & 3) == record.Header.EpochLow
+//@ ensures candidates-once: ncalls("Conn.readTrafficCandidates") == 1
+//@ loop #1: cands: forall(0, len(candidates), func(i int) bool { return candidates[i] != nil && uint8(candidates[i].Epoch & 3) == record.Header.EpochLow })
+//@ loop #1: remote: remoteEpoch == retAs("Conn.readTrafficCandidates", 1, result2) && ncalls("Conn.readTrafficCandidates") == 1
 //@ end
